@@ -69,12 +69,12 @@ def _only(t):
     return next(iter(s)) if len(s) == 1 else None
 
 
-def crossings(F):
+def crossings(F, crates=CRATES):
     """Yield (key, description, loc) for every side crossing; also returns the number of side-named sinks examined."""
     out = []
     examined = 0
     for fn in F.fns.values():
-        if fn.crate not in CRATES or any("derive" in x for x in fn.ex):
+        if fn.crate not in crates or any("derive" in x for x in fn.ex):
             continue
         p = None
         owner = fn.path
@@ -151,6 +151,8 @@ _CACHE = {}
 
 
 def check_sides(ctx, F, floor=150):
+    from props import controls
+    controls.require(ctx, "sides")
     ctx.clause("R-SIDES previous/current discipline: no value derived only from one side flows into a parameter, field, "
                "`&mut` receiver or function result named for the other side (audited crossings listed by exact key)")
     if id(F) not in _CACHE:
